@@ -949,8 +949,9 @@ impl Connection {
 
         self.app_limited = buf.is_empty() && !congestion_blocked;
 
-        // Send MTU probe if necessary
-        if buf.is_empty() && self.state.is_established() {
+        // Send MTU probe if necessary (never while congestion blocked: the probe's bytes would keep
+        // whatever is waiting for window - e.g. the handshake's last CRYPTO frame - blocked)
+        if buf.is_empty() && !congestion_blocked && self.state.is_established() {
             let space_id = SpaceId::Data;
             let probe_size = self
                 .path
